@@ -1,6 +1,9 @@
 import Driver.Util
 import DiskfsModel.Model.Ext4.ReaderCfg
 import DiskfsModel.Model.Ext4.InodeDecode
+import DiskfsModel.Model.Ext4.DirNow
+import DiskfsModel.Model.Ext4.FeatureGate
+import DiskfsModel.Model.Ext4.CsumMirror
 /-!
   Driver side of the inode decoding op of C20: the MIRROR of inodeFromBytes (Model/Ext4/InodeDecode.lean).
 
@@ -8,6 +11,9 @@ import DiskfsModel.Model.Ext4.InodeDecode
         → short | exterr | csum | ok, then every number the Go reader takes from the record
           (mode, ids, size, links, flags & fmask, i_blocks and its unit, generation, xattr block, version,
            i_extra_isize, dtime, project id, the four timestamps, inline link target)
+    ext4ref.dirblock data=HEX bs=N
+        → the MIRROR of parseDirEntriesLinear's loop as it is now on one directory block (every record, unused
+          ones included) and the SPEC reader's rec_len walk of the same block (records in use)
 -/
 namespace Driver.Ext4Dec
 open Diskfs Driver Diskfs.Ext4.Reader Diskfs.Ext4.InodeDec Diskfs.Ext4
@@ -48,5 +54,45 @@ def inodedec (args : List String) : String :=
       if extBad then "exterr"
       else if !goCsumOk seed n raw then "csum"
       else "ok\t" ++ fieldsStr g fmask
+
+def entStr (es : List (Nat × Nat × Bytes)) : String :=
+  if es.isEmpty then "-" else
+  ",".intercalate (es.map fun e => s!"{e.1}:{e.2.1}:{if e.2.2.isEmpty then "-" else toHex e.2.2}")
+
+def dirblock (args : List String) : String :=
+  match argHex args "data" with
+  | none => "bad-input"
+  | some data =>
+    let bs := argNatD args "bs"
+    match parseEntriesNow (data.length / 8 + 2) data with
+    | .ok es =>
+      let live := match Spec.dirWalk bs (bs / 8 + 2) data 0 [] with
+        | .ok ds => entStr (ds.map fun (d : Spec.Dirent) => (d.ino, d.ftype, d.name))
+        | .error _ => "!"
+      s!"ok\tes={entStr (es.map fun (e : DirEnt) => (e.inode, e.ftype, e.name))}\tlive={live}"
+    | .err => "err"
+    | .panic => "panic"
+    | .diverge => "diverge"
+
+/-- ext4ref.gatetbl compat=N incompat=N rocompat=N → the open decision of the regenerated gate table -/
+def gatetbl (args : List String) : String :=
+  s!"accept={b2s (gateAcceptsAll (argNatD args "compat") (argNatD args "incompat") (argNatD args "rocompat"))}"
+
+/-- ext4ref.csumdec kind=sb|seed|gd|dir … → the checksum verification decision of the Go reader's mirror
+      sb   data=HEX(1024)                      → ok=0|1
+      seed data=HEX(1024)                      → seed=N
+      gd   data=HEX(gdsize) seed=N grp=N gds=N → ok=0|1
+      dir  data=HEX(block) seed=N ino=N gen=N bs=N → ok=0|1 -/
+def csumdec (args : List String) : String :=
+  match argHex args "data" with
+  | none => "bad-input"
+  | some data =>
+    let seed := UInt32.ofNat (argNatD args "seed")
+    match arg args "kind" with
+    | some "sb" => s!"ok={b2s (goSbCsumOk data)}"
+    | some "seed" => s!"seed={(goSeed data).toNat}"
+    | some "gd" => s!"ok={b2s (goGdCsumOk seed (argNatD args "grp") (argNatD args "gds") data)}"
+    | some "dir" => s!"ok={b2s (goDirCsumOk seed (argNatD args "ino") (argNatD args "gen") (argNatD args "bs") data)}"
+    | _ => "unknown-kind"
 
 end Driver.Ext4Dec
